@@ -644,8 +644,21 @@ func checkStateWrite(r *Run) {
 	}
 	src := derivesFrom(it.Call.Value, func(y ssa.Value) bool { return isFieldLoad(y, "storage.State", "cache") })
 	r.Check(src, "C09.write.iterate", name, "iterates the block cache", "the iterated store derives from State.cache", "State.Write iterates something else than the block cache", p.ipos(it))
+	// a method value (s.flushEntry) arrives as a synthetic bound-method wrapper: look at the method it wraps
+	off := 0
+	if cl.Synthetic != "" {
+		var inner *ssa.Function
+		allInstrs(cl, func(ins ssa.Instruction) {
+			if sc := staticCallee(ins); sc != nil && sc.Blocks != nil && inRepo(sc) {
+				inner = sc
+			}
+		})
+		if inner != nil && len(inner.Params) == len(cl.Params)+1 {
+			cl, off = inner, 1
+		}
+	}
 	cname := fname(cl)
-	key, val := cl.Params[0], cl.Params[1]
+	key, val := cl.Params[off], cl.Params[off+1]
 	tombTrue := condEdges(cl, func(cond ssa.Value, _ *ssa.If) int {
 		return boolCond(cond, func(v ssa.Value) bool {
 			sub, ok := tombstoneTest(p, v, 0)
